@@ -87,6 +87,9 @@ type World struct {
 
 	// RaceMode: hooks only park (no world bookkeeping from repo goroutines).
 	RaceMode bool
+	// FreeRun: hooks do not even park - goroutines run truly in parallel
+	// whenever their timers fire together (race hunting without a schedule).
+	FreeRun bool
 
 	hwRoot string
 }
@@ -523,6 +526,9 @@ func injectedErr(op, path string, errno syscall.Errno) error {
 // simhook.Handler
 
 func (w *World) BeforeRead(path string) error {
+	if w.FreeRun {
+		return nil
+	}
 	ev := kernel.NewEvent("read", path, "", 2)
 	if w.RaceMode {
 		w.K.Park(ev, nil)
@@ -578,7 +584,7 @@ func faultContent(kind string) string {
 }
 
 func (w *World) AfterRead(path string, value int, err error) {
-	if w.RaceMode {
+	if w.RaceMode || w.FreeRun {
 		return
 	}
 	if r := w.restore; r != nil && r.path == path {
@@ -607,6 +613,9 @@ func errString(err error) string {
 }
 
 func (w *World) BeforeWrite(path string, value int) error {
+	if w.FreeRun {
+		return nil
+	}
 	ev := kernel.NewEvent("write", path, "", 2)
 	ev.Val = value
 	if w.RaceMode {
@@ -660,7 +669,7 @@ func (w *World) BeforeWrite(path string, value int) error {
 }
 
 func (w *World) AfterWrite(path string, value int, err error) {
-	if w.RaceMode {
+	if w.RaceMode || w.FreeRun {
 		return
 	}
 	ev := w.K.Current()
@@ -731,6 +740,9 @@ func (w *World) SetThirdParty(fanID, role string, value int) {
 }
 
 func (w *World) BeforeExec(executable string, args []string) error {
+	if w.FreeRun {
+		return nil
+	}
 	ev := kernel.NewEvent("exec", executable, "", 2)
 	ev.Args = args
 	w.curExec = ev
@@ -811,7 +823,7 @@ func execTarget(tg *Target) *Target {
 }
 
 func (w *World) AfterExec(executable string, args []string, out string, err error) {
-	if w.RaceMode {
+	if w.RaceMode || w.FreeRun {
 		return
 	}
 	ev := w.K.Current()
@@ -841,6 +853,9 @@ func (w *World) AfterExec(executable string, args []string, out string, err erro
 }
 
 func (w *World) Yield(site string, id string) {
+	if w.FreeRun {
+		return
+	}
 	ev := kernel.NewEvent("yield", site, id, 2)
 	if w.Sampler != nil && !w.RaceMode {
 		ev.Sample = w.Sampler(site, id)
@@ -858,6 +873,9 @@ func (w *World) Yield(site string, id string) {
 }
 
 func (w *World) BeforeLock(mu *sync.Mutex) {
+	if w.FreeRun {
+		return
+	}
 	ev := kernel.NewEvent("lock", "InitializationSequenceMutex", "", 2)
 	w.K.Park(ev, func() bool {
 		if mu.TryLock() {
